@@ -37,7 +37,15 @@ TRUSTED = [
     "QueryEscape/JoinPath/EscapedPath and path.Clean: modelled in Model/Rest.v, validated by correspondence only",
     "MailboxForAddress (C04) is a parameter of the model; the runner instantiates it with the table of calls observed on the implementation",
     "enmime parsing of the generated messages (text, html, attachments are checked against the generating tag by the driver)",
-    "Model/StoreSpec.v is the store (both back-ends refine it: property C07)",
+    "the store: the server model runs over Model/StoreSpec.v; rest_over_storespec / serve_over_storespec / client_over_storespec / "
+    "history_over_storespec prove that every access of a handler is a StoreSpec operation (Lst / Get Kth|Latest|Bogus / Seen / Remove / "
+    "Purge) and every answer a function of its observations, and rest_over_store_models composes this with C07's refinement theorems "
+    "(run_mem = run_spec for every cap and size limit; run_file = run_spec under c_max = 0 and file_fresh) — what stays trusted is the "
+    "tie of the store MODELS to the Go stores (C07's correspondence check)",
+    "remaining parameters of the server model: mfa (MailboxForAddress: naming is property C04; arbitrary function, observed from the "
+    "implementation in the correspondence run) and srcok (whether the content of a stored message can still be opened when the manager "
+    "gets to it: the file store opens the content file after releasing the mailbox lock, which no atomic store operation describes; "
+    "arbitrary in the handler theorems, all-true in the client theorems)",
 ]
 ASSUMPTIONS = [
     "client_op_effect / client_convenience_effect: the content of every stored message can be opened (srcok = true everywhere); the "
